@@ -111,7 +111,7 @@ func genFuncsOf(cr *caseRun) map[string]genFunc {
 		return res
 	}
 	for _, it := range cr.C.Interfaces {
-		for _, m := range it.Methods {
+		for _, m := range append(append([]gen.Method{}, it.Methods...), it.Embeds...) {
 			for _, key := range []string{m.Name, "(recv)." + m.Name} {
 				if ds := decls[key]; len(ds) > 0 {
 					res[m.Name] = parseGenFunc(m.Name, ds[0])
